@@ -20,7 +20,7 @@ use simcore::rng::Rng;
 use simcore::spec::{gen_graph_spec, shrink_graph_spec, GraphSpec};
 use std::sync::{Arc, Mutex};
 
-pub const KTYPES: [&str; 14] = ["Kmer4", "Kmer5", "Kmer6", "Kmer8", "Kmer12", "Kmer14", "Kmer16", "Kmer20", "Kmer24", "KmerK31", "Kmer32", "Kmer40", "Kmer48", "Kmer64"];
+pub const KTYPES: [&str; 19] = ["Kmer4", "Kmer5", "Kmer6", "Kmer8", "Kmer12", "Kmer14", "Kmer16", "Kmer20", "Kmer24", "KmerK31", "Kmer32", "Kmer40", "Kmer48", "Kmer64", "Kmer6w", "Kmer12w", "Kmer20w", "Kmer33u", "Kmer80u"];
 
 #[derive(Clone, Debug, Serialize, Deserialize, PartialEq)]
 pub enum Sched {
@@ -426,7 +426,16 @@ impl Harness for C19 {
     fn run(&self, c: &Case, rec: &mut Rec) -> Result<(), Violation> {
         use debruijn::kmer::*;
         type KmerK31 = VarIntKmer<u64, K31>;
+        // user-declared types whose storage integer is much wider than 2K bits
+        type Kmer6w = VarIntKmer<u64, K6>;
+        type Kmer12w = VarIntKmer<u128, K12>;
+        type Kmer20w = VarIntKmer<u128, K20>;
         match c.graph.ktype.as_str() {
+            "Kmer33u" => run_k::<simcore::userkmer::Kmer33u>(c, rec),
+            "Kmer80u" => run_k::<simcore::userkmer::Kmer80u>(c, rec),
+            "Kmer6w" => run_k::<Kmer6w>(c, rec),
+            "Kmer12w" => run_k::<Kmer12w>(c, rec),
+            "Kmer20w" => run_k::<Kmer20w>(c, rec),
             "Kmer4" => run_k::<Kmer4>(c, rec),
             "Kmer5" => run_k::<Kmer5>(c, rec),
             "Kmer6" => run_k::<Kmer6>(c, rec),
